@@ -140,8 +140,11 @@ void wide(char const* desc, int kid)
     long pairs = env_long("VERIF_PAIRS", 4000);
     for (long p = 0; p < pairs; ++p) {
         // directed pairs first (every operand with a few partners), then random pairs
-        size_t i = (size_t)p < n * 6 ? (size_t)p / 6 : rng.below(n);
-        size_t j = (size_t)p < n * 6 ? ((size_t)p % 6 == 0 ? i : (size_t)p % 6 == 1 ? 0 : (size_t)p % 6 == 2 ? 1 : rng.below(n)) : rng.below(n);
+        // partners of every operand: itself, 0, all-ones(-1), 1, 2, three random ones; odd rounds swap the operand order
+        size_t i = (size_t)p < n * 8 ? (size_t)p / 8 : rng.below(n);
+        size_t sel = (size_t)p % 8;
+        size_t j = (size_t)p < n * 8 ? (sel == 0 ? i : sel == 1 ? 0 : sel == 2 ? 1 : sel == 3 ? 2 : sel == 4 ? 3 : rng.below(n)) : rng.below(n);
+        if ((p / 8) & 1) std::swap(i, j);
         W const& a = vals[i];
         W const& b = vals[j];
         std::string hb = hex(b);
@@ -216,4 +219,34 @@ void wide(char const* desc, int kid)
 }
 
 // same-type comparison kernel used by C03 (wide part): a subset of the above
+}  // namespace c10
+
+namespace c10 {
+// cross-type comparison of two wide_integer types (C03, wide part):  C <kid> <op> <a_hex> <b_hex> <KIND> <0|1>
+template<class W1, class W2>
+void wide_cmp(char const* desc, int kid)
+{
+    using namespace vf;
+    if (!kernel_selected(desc)) return;
+    g.cur_kernel = desc;
+    Rng rng(mix(env_seed(), hash_str(desc)));
+    printf("{\"t\":\"kd\",\"id\":%d,\"k\":\"%s\",\"bits1\":%d,\"signed1\":%d,\"bits2\":%d,\"signed2\":%d,\"digits1\":%d,\"digits2\":%d}\n", kid, desc, storage_bits<W1>(), (int)cnl::numbers::signedness_v<W1>, storage_bits<W2>(),
+           (int)cnl::numbers::signedness_v<W2>, (int)cnl::digits_v<W1>, (int)cnl::digits_v<W2>);
+    auto o1 = operands<W1>(rng, 20);
+    auto o2 = operands<W2>(rng, 20);
+    long pairs = env_long("VERIF_PAIRS", 3000);
+    for (long p = 0; p < pairs; ++p) {
+        W1 a = make<W1>(o1[(size_t)p < o1.size() * 3 ? (size_t)p / 3 : rng.below(o1.size())]);
+        W2 b = make<W2>(o2[rng.below(o2.size())]);
+        std::string ha = hex(a), hb = hex(b);
+        bool t = false;
+        Outcome o;
+#define VF_C(name, expr) o = guarded([&] { t = (expr); }); printf("C %d %s %s %s %s %d\n", kid, name, ha.c_str(), hb.c_str(), kind_name(o.kind), (int)t);
+        VF_C("<", a < b) VF_C("<=", a <= b) VF_C(">", a > b) VF_C(">=", a >= b) VF_C("==", a == b) VF_C("!=", a != b)
+        VF_C("r<", b < a) VF_C("r==", b == a)
+#undef VF_C
+    }
+    fflush(stdout);
+    g.cur_kernel = "";
+}
 }  // namespace c10
